@@ -128,7 +128,8 @@ def describeOp (progS : Sexp) : Sexp :=
   match decProg progS with
   | some p =>
     match compile p with
-    | .ok env [(name, rt)] =>
+    -- (the first export is the one printed; further exports only share the module)
+    | .ok env ((name, rt) :: _) =>
       -- the printed names of generic instances (`Base_Arg` / `Base_instance_N`, lib.rs:430-466) are not modelled
       if env.any (fun e => (e.1.splitOn "<").length > 1) then .atom "untied"
       else .list [.atom "described", .str (RT.describe env name rt)]
